@@ -20,7 +20,7 @@ pub fn run(seed: u64, tier: &str, w: &mut dyn Write) -> usize {
     for (ci, (name, cfg)) in cfgs.iter().enumerate() {
         for pi in 0..per_cfg {
             // gadget families rotate so that every family meets every configuration
-            let kinds = match (ci + pi) % 6 { 0 => 1, 1 => 3, 2 => 7, 3 => 15, 4 => 31, _ => 17 };
+            let kinds = match (ci + pi) % 7 { 0 => 1, 1 => 3, 2 => 7, 3 => 15, 4 => 127, 5 => 97, _ => 17 };
             let size = match pi % 3 { 0 => 6 + r.below(10) as usize, 1 => 20 + r.below(40) as usize, _ => 60 + r.below(100) as usize };
             let size = if *name == "standard" { size.min(30) } else { size };
             let p = gen_program(&mut r, size, kinds);
@@ -56,7 +56,7 @@ pub fn run(seed: u64, tier: &str, w: &mut dyn Write) -> usize {
     // wide rows and rows with few routed wires
     for (tag, ncfg) in [(98u64, wide_config()), (99u64, narrow_config())] {
         for pi in 0..per_cfg {
-            let p = gen_program(&mut r, 10 + 20 * pi, 31);
+            let p = gen_program(&mut r, 10 + 20 * pi, 127);
             let enc = dsl::encode(&p);
             let res = build_and_prove(&p, &ncfg);
             let (ok, pis) = match &res {
@@ -72,11 +72,46 @@ pub fn run(seed: u64, tier: &str, w: &mut dyn Write) -> usize {
             n += 2;
         }
     }
+    // witness-only sweep (no proving, so hundreds of programs): the builder + generators must produce a
+    // witness that satisfies every gate on every row, every copy constraint and the lookup relation, and
+    // whose public inputs are the direct evaluation; all gadget families, standard / narrow / wide rows
+    {
+        let nprog = if tier == "thorough" { 600 } else { 150 };
+        let wcfgs = [("std", cfgs[0].1.clone()), ("narrow", narrow_config()), ("wide", wide_config())];
+        for i in 0..nprog {
+            let kinds = [127u32, 97, 99, 111, 63, 101][i % 6];
+            let size = [12usize, 30, 60, 25][i % 4] + r.below(10) as usize;
+            let p = gen_program(&mut r, size, kinds);
+            let (cname, cfg) = &wcfgs[i % 3];
+            let (_, pubs) = dsl::eval_native(&p).unwrap();
+            let (ok, why, pis): (u64, String, Vec<u64>) = match crate::c02::build_circ(&p, cfg) {
+                Err(e) => (0, format!("build {e}"), vec![]),
+                Ok(circ) => match crate::c02::corrupted_assignment(&circ, &p, &Default::default()) {
+                    Err(e) => (0, format!("witness {e}"), vec![]),
+                    Ok((_, m, pis)) => {
+                        let pv: Vec<u64> = pis.iter().map(|x| x.to_canonical_u64()).collect();
+                        match circ.full_violation(&m, &pis) {
+                            Some(v) => (0, format!("unsatisfied {v}"), pv),
+                            None => ((pv == pubs) as u64, if pv == pubs { String::new() } else { "public inputs differ from the direct evaluation".into() }, pv),
+                        }
+                    }
+                },
+            };
+            plonky2::plonk::verif_knobs::reset();
+            if i % 5 == 0 || ok == 0 {
+                writeln!(w, "{}", line("prog", &dsl::encode(&p), &pis.iter().map(|x| x.to_string()).collect::<Vec<_>>().join(" "))).unwrap();
+                n += 1;
+            }
+            writeln!(w, "{}{}", line("c01verdict", &[300 + (i % 3) as u64, i as u64, kinds as u64, p.ops.len() as u64], &ok.to_string()),
+                     if why.is_empty() { String::new() } else { format!(" # witness-only {cname} {}", why.replace(' ', "_")) }).unwrap();
+            n += 1;
+        }
+    }
     // Keccak commitments (KeccakGoldilocksConfig): prove / verify / public inputs
     for (k, ci) in [0usize, 3, 6, 8].iter().enumerate() {
         if tier != "thorough" && k >= 2 { break; }
         for pi in 0..(per_cfg.min(3)) {
-            let kinds = [7u32, 31, 19][pi % 3];
+            let kinds = [7u32, 127, 19, 99][pi % 4];
             let p = gen_program(&mut r, 10 + 15 * pi, kinds);
             let (_, pubs) = dsl::eval_native(&p).unwrap();
             let res = crate::kcfg::build_and_prove_c::<crate::kcfg::KC>(&p, &cfgs[*ci].1);
